@@ -206,6 +206,61 @@ func instrumentFile(fset *token.FileSet, af *ast.File, src []byte, pkgVars map[s
 			visit(st, true)
 		}
 	}
+	// atomic operations are synchronisation operations too: a claim made with
+	// Load-then-Store instead of CompareAndSwap is only wrong if somebody else
+	// runs between the two. Statements whose own expressions (not nested
+	// blocks) call sync/atomic functions or the Load/Store/Add/Swap/
+	// CompareAndSwap methods get a SyncPoint in front.
+	atomicName := ""
+	for _, im := range af.Imports {
+		if im.Path.Value == `"sync/atomic"` {
+			atomicName = "atomic"
+			if im.Name != nil {
+				atomicName = im.Name.Name
+			}
+		}
+	}
+	atomicOp := func(st ast.Stmt) bool {
+		found := false
+		var scan func(n ast.Node)
+		scan = func(n ast.Node) {
+			ast.Inspect(n, func(x ast.Node) bool {
+				if found {
+					return false
+				}
+				switch v := x.(type) {
+				case *ast.FuncLit, *ast.BlockStmt:
+					return x == n
+				case *ast.CallExpr:
+					if sel, ok := v.Fun.(*ast.SelectorExpr); ok {
+						if id, ok := sel.X.(*ast.Ident); ok && atomicName != "" && id.Name == atomicName {
+							found = true
+						}
+						switch sel.Sel.Name {
+						case "CompareAndSwap", "Swap":
+							found = true
+						case "Load", "Store", "Add":
+							if atomicName != "" {
+								found = true
+							}
+						}
+					}
+				}
+				return true
+			})
+		}
+		switch s := st.(type) {
+		case *ast.IfStmt:
+			if s.Init != nil {
+				scan(s.Init)
+			}
+			scan(s.Cond)
+		case *ast.ForStmt, *ast.RangeStmt, *ast.SwitchStmt, *ast.TypeSwitchStmt, *ast.SelectStmt, *ast.BlockStmt, *ast.LabeledStmt:
+		default:
+			scan(st)
+		}
+		return found
+	}
 	var doList func(list []ast.Stmt)
 	doList = func(list []ast.Stmt) {
 		for _, st := range list {
@@ -213,7 +268,10 @@ func instrumentFile(fset *token.FileSet, af *ast.File, src []byte, pkgVars map[s
 			case *ast.CaseClause, *ast.CommClause:
 				continue
 			}
-			if mentions(st) {
+			if atomicOp(st) {
+				ins = append(ins, insertion{off(st.Pos()), "zzsimrt.SyncPoint(); ", 0})
+				points++
+			} else if mentions(st) {
 				ins = append(ins, insertion{off(st.Pos()), call, 0})
 				points++
 			}
